@@ -95,7 +95,7 @@ def tensor_driver(args):
     sym, ferm, seed, nsteps = args
     rng = random.Random(seed)
     cfg = T.make_config(sym, ferm)
-    inits = T.gen_inits(sym, rng, nreg=3, want_diag=(seed % 3 == 0))
+    inits = T.gen_inits(sym, rng, nreg=3 + (seed % 2), want_diag=(seed % 2 == 0))      # every second program holds a diagonal tensor (spectrum-like operand)
     H = HeapRecorder()
     regs = [T.build_init(cfg, sym, st) for st in inits]
     hid = [H.add(t) for t in regs]
@@ -103,6 +103,9 @@ def tensor_driver(args):
     for _ in range(nsteps):
         r = rng.random()
         a = rng.randrange(len(regs))
+        dgs = [i for i, t_ in enumerate(regs) if t_.isdiag]
+        if dgs and rng.random() < 0.25:
+            a, r = rng.choice(dgs), 0.45            # functions of a spectrum: entropy, truncation_mask, sqrt / rsqrt / reciprocal, ...
         if r < 0.12:
             k = rng.choice(('copy', 'clone'))
             res = H.call('fresh', k, lambda: getattr(regs[a], k)())
@@ -127,6 +130,53 @@ def tensor_driver(args):
                     blk[...] = blk * 2 + 1
                 H.call('inplace', 'block view write', wr, recv=hid[a])
             obs[a] = sobs(regs[a], sym)
+            continue
+        elif r < 0.42 or (r < 0.48 and regs[a].isdiag):
+            # element-wise functions, conversions and scalar functions (entropy normalises the probabilities it is given: on a copy, not on the operand)
+            import yastn
+            t = regs[a]
+            real = t.yastn_dtype == 'float64'
+            names = ['abs', 'real', 'imag', 'neg', 'pow2', 'exp', 'remove_zero_blocks', 'to_numpy', 'to_dense', 'to_nonsymmetric', 'norm_inf', 'norm_fro', 'to_dict', 'save_to_dict'] + \
+                    (['sqrt', 'rsqrt', 'reciprocal'] if real else []) + (['entropy', 'entropy', 'entropy2', 'truncation_mask', 'diag_to_full'] if t.isdiag and real else [])
+            which = rng.choice(names)
+
+            def elw():
+                if which == 'abs':
+                    return abs(t)
+                if which in ('real', 'imag', 'exp', 'sqrt', 'remove_zero_blocks', 'to_numpy', 'to_dense', 'to_nonsymmetric'):
+                    out = getattr(t, which)()
+                    return out if hasattr(out, '_data') else None
+                if which == 'rsqrt':
+                    return t.rsqrt(cutoff=0.5)
+                if which == 'reciprocal':
+                    return t.reciprocal(cutoff=0.5)
+                if which == 'neg':
+                    return -t
+                if which == 'pow2':
+                    return t ** 2
+                if which == 'norm_inf':
+                    t.norm(p='inf')
+                    return None
+                if which == 'norm_fro':
+                    t.norm()
+                    return None
+                if which == 'to_dict':
+                    t.to_dict(level=rng.choice((0, 1, 2)))
+                    return None
+                if which == 'save_to_dict':
+                    t.save_to_dict()
+                    return None
+                if which == 'entropy':
+                    yastn.entropy(abs(t) if rng.random() < 0.3 else t, alpha=1)
+                    return None
+                if which == 'entropy2':
+                    yastn.entropy(t, alpha=rng.choice((2, 0.5)))
+                    return None
+                if which == 'truncation_mask':
+                    return yastn.linalg.truncation_mask(t, tol=0.4, D_total=2)
+                if which == 'diag_to_full':
+                    return t.diag()
+            H.call('pure', 'elementwise.' + which, elw)
             continue
         elif r < 0.48:
             import yastn
@@ -283,6 +333,21 @@ def peps_driver(args):
     sh = H.call('pure', 'peps.shallow_copy', lambda: psi.shallow_copy())
     s0 = geo.sites()[0]
     H.call('inplace', 'peps.__setitem__', lambda: psi.__setitem__(s0, 2 * psi[s0]), recv=1)
+    # the same while a patch is open (evolution_step_ works on a patch): copies taken then must not share the patched tensors either
+    sp = rng.sample(geo.sites(), rng.randint(1, len(geo.sites())))
+    H.call('inplace', 'peps.move_to_patch', lambda: psi.move_to_patch(sp), recv=1)
+    H.call('fresh', 'peps.copy (patch open)', lambda: psi.copy())
+    H.call('fresh', 'peps.clone (patch open)', lambda: psi.clone())
+    H.call('pure', 'peps.shallow_copy (patch open)', lambda: psi.shallow_copy())
+    H.call('inplace', 'peps.__setitem__ (patched site)', lambda: psi.__setitem__(sp[0], 3 * psi[sp[0]]), recv=1)
+
+    def wr():
+        t = psi[sp[0]]
+        tb = t.get_blocks_charge()[0]
+        blk = t[tb]
+        blk[...] = blk + 1
+    H.call('inplace', 'block view write at a patched site', wr, recv=1)
+    H.call('inplace', 'peps.apply_patch', lambda: psi.apply_patch(), recv=1)
 
     def gate():
         g = fpeps.gates.gate_nn_hopping(0.3, 0.1, ops.I(), ops.c(), ops.cp(), geo.bonds()[0])
